@@ -24,16 +24,23 @@ def run(pid, tier):
         h3 = build_harness("mime03", os.path.join(BUILD, "cargo-mime03"))
         hh = build_harness("http-types", os.path.join(BUILD, "cargo-http"))
     proof = proof_step(pid, thorough=(tier == "thorough"))
+    # the suffixes each feature lists (docs of StaticFile::mime); used when the table cannot be read from the source any more
+    DOC = {"mime03_rows": ["bmp", "css", "gif", "jpg", "jpeg", "js", "jsonp", "json", "png", "svg", "woff", "woff2"],
+           "http_rows": ["css", "html", "htm", "ico", "jpg", "jpeg", "js", "jsonp", "json", "png", "svg", "txt", "wasm", "xml"]}
     try:
         t = extract_tables.extract(REPO)
-        suffixes = sorted(set([a for a, _ in t["mime03_rows"]] + [a for a, _ in t["http_rows"]]) | set(REGISTRY))
-    except Exception:
-        suffixes = sorted(REGISTRY)
-    unknown = ["", "tar", "x", "cs", "csss", "pn", "jpe", "woff3", "htmlx", "7z", "ÇSS", "cſs", "jſ", "K", "Jſ"]
+        if not t["mime03_rows"] or not t["http_rows"]: raise ValueError("empty table")
+    except Exception as e:
+        chk.notes["table_extraction"] = "failed (%s); the documented suffix lists are used as the oracle" % e
+        t = {k: [(x, None) for x in v] for k, v in DOC.items()}
+    suffixes = sorted(set([a for a, _ in t["mime03_rows"]] + [a for a, _ in t["http_rows"]]) | set(REGISTRY))
+    unknown = ["", "tar", "x", "cs", "csss", "pn", "jpe", "woff3", "htmlx", "7z", "ÇSS", "cſs", "jſ", "K", "Jſ", "jsx", "pngx", "xmlx", "j", "s", "son", "off2", "2"]
     hist = []
     for s in suffixes:
         for v in case_variants(s):
             hist.append([("D", "f." + v, b"x"), ("F", "d/g." + v, b"y"), ("A", "e/h." + v, "to/h." + v, b"z")])
+        # names with more than one dot: the suffix is what follows the last one
+        hist.append([("D", "lib.min." + s, b"x"), ("F", "d/logo.2x." + s, b"y"), ("A", "e/h.v1." + s, "to/h.v1." + s, b"z"), ("D", "k.css." + s, b"w")])
     for s in unknown:
         hist.append([("D", "f." + s, b"x")] + ([("A", "e/noext", "to/n", b"z")] if s == "" else []))
     disagree = []; oracle_fail = []
